@@ -238,20 +238,13 @@ def sweep_deck(bodies, rng, n_random, n_near):
     return out
 
 
-def is_wed_left_handed(failure):
-    '''Known-finding class wed_left_handed: WED whose (a, b, h) is a
-    left-handed triple of mutually orthogonal vectors; only the probes that
-    involve the slant facet (the body itself, its complement, facet 1).'''
-    if failure.get('mn') != 'wed' or 'point' not in failure \
-            or 'expected' not in failure:
-        return False
-    prm = failure['params']
-    a, b, h = (np.array(prm[3 + 3 * i:6 + 3 * i]) for i in range(3))
-    if abs(a @ b) > 1e-12 or abs(a @ h) > 1e-12 or abs(b @ h) > 1e-12:
-        return False
-    if G.det3(a, b, h) >= 0:
-        return False
-    return failure['probe'][1] in (None, 1)
+def classify(failure):
+    '''Known-finding class of a sweep failure (None: a fresh violation).
+    No class of C03 is open: the left-handed WED defect (DESIGN §8 #20) was
+    repaired in /repo (fix: 15c826d), its witness is replayed as a corpus
+    case.'''
+    del failure
+    return None
 
 
 def report_failures(res, sweep, label):
@@ -262,7 +255,7 @@ def report_failures(res, sweep, label):
         if key in seen:
             continue
         seen.add(key)
-        cls = 'wed_left_handed' if is_wed_left_handed(fail) else None
+        cls = classify(fail)
         if 'error' in fail:
             what = f'{label}: {fail["error"]} ({fail.get("mn")} ' \
                    f'{fail.get("params")})'
@@ -351,16 +344,21 @@ def run(res, tier, seed, proofs_ok):
                 'points: random around the body and +-1e-2..1e-4 of the body '
                 'size across every facet')
 
-    # ---- 1. known-finding witness: left-handed WED ----
-    witness = [(1, 'wed', [0.0, 0, 0, 0, 2, 0, 1, 0, 0, 0, 0, 3])]
-    sw = sweep_deck(witness, random.Random(1), 40, 6)
-    if any(is_wed_left_handed(f) for f in sw['failures']):
-        report_failures(res, {'text': sw['text'], 'failures':
-                              [f for f in sw['failures']
-                               if is_wed_left_handed(f)]},
-                        'left-handed WED witness')
-    res.count('witness:wed_left_handed:'
-              + ('still-fails' if sw['failures'] else 'no-longer-fails'))
+    # ---- 1. corpus of minimised past failures (run first) ----
+    # left-handed WED (DESIGN §8 #20, repaired by fix: 15c826d), the three
+    # other ways of making the triple left-handed, and a left-handed BOX
+    corpus = [(1, 'wed', [0.0, 0, 0, 0, 2, 0, 1, 0, 0, 0, 0, 3]),
+              (2, 'wed', [0.0, 0, 0, 1, 0, 0, 0, 2, 0, 0, 0, -3]),
+              (3, 'wed', [1.0, 1, 1, -1, 0, 0, 0, 2, 0, 0, 0, 3]),
+              (4, 'wed', [0.0, 0, 0, 1, 0, 0, 0, 2, 0, 0, 0, 3]),
+              (5, 'box', [0.0, 0, 0, 0, 2, 0, 1, 0, 0, 0, 0, 3])]
+    sw = sweep_deck(corpus, random.Random(1), 60, 6)
+    if not sw['conv'].ok:
+        res.violation('impl-violation', 'corpus deck rejected: '
+                      f'{sw["conv"].exc}: {sw["conv"].msg[:200]}',
+                      {'input': {'deck': sw['text']}}, found_input=True)
+    report_failures(res, sw, 'corpus (left-handed WED / BOX)')
+    res.count('corpus:membership-comparisons', sw['checked'])
 
     # ---- 2. ties ----
     n_ok = 1800 if quick else 12000
